@@ -8,65 +8,10 @@
 #include <memory>
 #include <unordered_set>
 #include "../sim/runner.h"
-#include "cache_model.h"
+#include "cache_lin.h"
 
 namespace {
 using cppcms::impl::base_cache;
-
-struct Op {
-	int thread = 0; std::string kind; std::string key; std::set<std::string> trig; int64_t deadline = 0; std::string val; int how = 0;
-	// observation
-	uint64_t inv = 0, ret = 0; bool hit = false; std::string rval; std::set<std::string> rtrig; int64_t rdl = 0; unsigned rkeys = 0, rtrigs = 0;
-	std::string str() const {
-		std::string s = "t" + std::to_string(thread) + " [" + std::to_string(inv) + "," + std::to_string(ret) + "] " + kind + "(" + key + ")";
-		if(kind == "store") { s += " val=" + val + " dl=" + std::to_string((long)deadline) + " trig={"; for(auto &t:trig) s += t + ","; s += "}"; }
-		if(kind == "fetch") s += hit ? " -> HIT " + rval : " -> MISS";
-		if(kind == "stats") s += " -> keys=" + std::to_string(rkeys) + " trig=" + std::to_string(rtrigs);
-		return s;
-	}
-};
-
-std::string canon(const CacheModel &m){
-	// canonical state: LRU and insertion order as ranks
-	std::vector<std::pair<uint64_t,std::string>> l,i; for(auto &kv:m.m){ l.push_back({kv.second.lru,kv.first}); i.push_back({kv.second.ins,kv.first}); }
-	std::sort(l.begin(),l.end()); std::sort(i.begin(),i.end());
-	std::string s;
-	for(auto &kv:m.m){ s += kv.first + "=" + kv.second.val + "@" + std::to_string((long)kv.second.deadline) + "{"; for(auto &t:kv.second.trig) s += t + ","; s += "}"; }
-	s += "|L:"; for(auto &x:l) s += x.second + ","; s += "|I:"; for(auto &x:i) s += x.second + ",";
-	return s;
-}
-
-struct Lin {
-	std::vector<Op> &ops; int64_t now; uint64_t states = 0, limit_states; bool inconclusive = false;
-	std::unordered_set<std::string> seen;
-	Lin(std::vector<Op> &o,int64_t n,uint64_t ls) : ops(o), now(n), limit_states(ls) {}
-	bool apply(CacheModel &m,const Op &o){
-		if(o.kind == "store") { m.store(o.key,o.val,o.trig,o.deadline,now); return true; }
-		if(o.kind == "fetch") { const CacheEntry *e = nullptr; bool h = m.fetch(o.key,now,&e); if(h != o.hit) return false; if(!h) return true;
-			if((o.how & 3) != 3 && e->val != o.rval) return false; if((o.how & 3) <= 1 && e->trig != o.rtrig) return false; if(((o.how & 3) == 0 || (o.how & 3) == 2) && e->deadline != o.rdl) return false; return true; }
-		if(o.kind == "rise") { m.rise(o.key); return true; }
-		if(o.kind == "remove") { m.remove(o.key); return true; }
-		if(o.kind == "clear") { m.clear(); return true; }
-		if(o.kind == "stats") { unsigned k,t; m.stats(k,t); return k == o.rkeys && t == o.rtrigs; }
-		return true;
-	}
-	bool search(uint64_t done,const CacheModel &m){
-		if(done == (ops.size() >= 64 ? ~0ULL : ((1ULL << ops.size()) - 1))) return true;
-		if(++states > limit_states){ inconclusive = true; return true; }
-		std::string key = std::to_string(done) + "#" + canon(m);
-		if(!seen.insert(key).second) return false;
-		// minimal ops: not done and no other pending op returned before it was invoked
-		uint64_t min_ret = ~0ULL; for(size_t i=0;i<ops.size();i++) if(!(done >> i & 1) && ops[i].ret < min_ret) min_ret = ops[i].ret;
-		for(size_t i=0;i<ops.size();i++){
-			if(done >> i & 1) continue;
-			if(ops[i].inv > min_ret) continue;
-			CacheModel n = m;
-			if(!apply(n,ops[i])) continue;
-			if(search(done | (1ULL << i),n)) return true;
-		}
-		return false;
-	}
-};
 
 struct E3 : Engine {
 	J generate(uint64_t seed,const std::string &prop,bool thorough) override {
